@@ -118,10 +118,11 @@ def shapes(tier):
                     (None, 's', 'out', 'b.output'), (None, 'a', 'dep', 'g'), (None, 'b', 'dep', 'a::b::c')],
                    ['a', 'g', 's']))
     s.append(Shape('two_projects_overlapping_names', 'r',
+                   # (r::a may consume the outputs of two producers with the same target name in different projects: b.output and q::b.output)
                    # (the root project has a target named like the imported project: `q` on the command line is the root target r::q)
                    {'r': {'dir': '/r', 'targets': {'a': 'build', 'b': 'build', 'q': 'build'}}, 'q': {'dir': '/q', 'targets': {'a': 'build', 'b': 'build'}}},
                    [('r', 'a', 'dep', 'b'), ('r', 'a', 'dep', 'q::b'), ('r', 'a', 'out', 'b.output'), ('q', 'a', 'dep', 'b'), ('q', 'a', 'out', 'b.output'),
-                    ('r', 'b', 'out', 'q::b.output'), ('q', 'b', 'dep', 'r::q'), ('r', 'q', 'dep', 'q::zz'), ('r', 'a', 'dep', 'q::a')],
+                    ('r', 'a', 'out', 'q::b.output'), ('q', 'b', 'dep', 'r::q'), ('r', 'q', 'dep', 'q::zz'), ('r', 'a', 'dep', 'q::a')],
                    ['a', 'r::a', 'q::a', 'q::b', 'b', 'q']))
     s.append(Shape('nested_imports_same_target_names', 'r',
                    {'r': {'dir': '/r', 'targets': {'gen': 'build', 'all': 'aggregate'}}, 'q': {'dir': '/r/q', 'targets': {'gen': 'build', 'all': 'aggregate'}},
